@@ -23,3 +23,5 @@ def check(A):
         R.sweep_complete_rule(A, fl, 'C16')
         R.idle_guard_rule(A, fl, 'C16')
         R.last_ping_writers_rule(A, fl, 'C16')
+        S.poll_cancel_rule(A, fl, 'C16')
+    R.asgi_close_total_rule(A, 'C16')
